@@ -248,6 +248,50 @@ Fixpoint run_trace (s : kstate) (fs : list frame) : list kstate :=
   match fs with [] => [] | f :: t => let s' := kf s f in s' :: run_trace s' t end.
 Definition run (s : kstate) (fs : list frame) : kstate := fold_left kf fs s.
 
+(* ------------------------------------------------------------------ properties read by callers *)
+(* KalmanState.predicted_state_vec / predicted_obs_vec (Welch eqn 1.9 and H x^-) *)
+Definition predicted_state_vec (s : kstate) : list vec := map uncol (dot_n_23 (tm s) (map colm (svec s))).
+Definition predicted_obs_vec (s : kstate) : list vec :=
+  map uncol (dot_n_23 (om s) (map colm (predicted_state_vec s))).
+
+(* kalman_filter without the noise-variance estimate (noise_var := empty rows): every other field
+   is the same (Proofs/KalmanLite.v: lite_agrees) — used to replay LONG tracks, whose exact
+   variance over the own history (fractions with unrelated denominators) is too slow *)
+Definition kalman_filter_lite (s : kstate) (old_indices : list (option nat)) (coordinates : list vec)
+  (q r : list mat) : kstate :=
+  let n := length old_indices in
+  if Nat.eqb n 0 then fresh (om s) (tm s) else
+  let matching := map is_some old_indices in
+  let new_indices := mask (map negb matching) (seq 0 n) in
+  let retained_indices := mask matching (seq 0 n) in
+  let new_coords := gather coordinates new_indices [] in
+  let observation_matrix_t := mtrans (om s) in
+  let s2 :=
+    if Nat.ltb 0 (length retained_indices) then
+      let ks := deep_copy s in
+      let coords := gather coordinates retained_indices [] in
+      let ks := map_frames ks (somes (gather old_indices retained_indices None)) in
+      let '(state_vec, state_cov, state_noise) := update_stack ks coords (mask matching q) (mask matching r) in
+      let idx := seq 0 (length state_noise) in
+      let all_state_noise := snoise ks ++ state_noise in
+      let all_state_noise_idx := sidx ks ++ idx in
+      let noise_var := map (fun _ : nat => @nil Qc) idx in
+      mkK (om ks) (tm ks) state_vec state_cov noise_var all_state_noise all_state_noise_idx
+    else fresh (om s) (tm s) in
+  if Nat.ltb 0 (length new_coords) then
+    let state_vec := map uncol (dot_n_23 observation_matrix_t (map colm new_coords)) in
+    let nnew_features := length new_indices in
+    let cov_matrix := diag (init_cov_vec (om s)) in
+    let state_cov := repeat cov_matrix nnew_features in
+    let noise_var := repeat (repeat 1 (state_len s2)) nnew_features in
+    add_features s2 retained_indices new_indices state_vec state_cov noise_var
+  else s2.
+
+Definition kf_lite (s : kstate) (f : frame) : kstate :=
+  let '(o, c, q, r) := f in kalman_filter_lite s o c q r.
+Fixpoint run_trace_lite (s : kstate) (fs : list frame) : list kstate :=
+  match fs with [] => [] | f :: t => let s' := kf_lite s f in s' :: run_trace_lite s' t end.
+
 (* ------------------------------------------------------------------ wire format *)
 Definition as_Qc (x : sx) : Qc := Q2Qc (as_Z (arg 0 x) # Z.to_pos (as_Z (arg 1 x))).
 Definition of_Qc (q : Qc) : sx := L [I (Qnum (this q)); I (Zpos (Qden (this q)))].
@@ -289,6 +333,19 @@ Definition entry_run (x : sx) : sx :=
   let fs := map as_frame fsx in
   if existsb (fun f => old_has_bad (arg 0 f)) fsx || negb (valid_framesb 0 fs) then L []
   else L [L (map of_state (run_trace (fresh H A) fs))].
+
+(* entry_run_lite [H; A; frames]: states without noise_var, plus the predicted state / observation
+   vectors: per frame [state_vec; state_cov; state_noise; state_noise_idx; predicted_state_vec; predicted_obs_vec] *)
+Definition of_state_lite (s : kstate) : sx :=
+  L [L (map of_vec (svec s)); L (map of_mat (scov s)); L (map of_vec (snoise s)); L (map of_nat (sidx s));
+     L (map of_vec (predicted_state_vec s)); L (map of_vec (predicted_obs_vec s))].
+Definition entry_run_lite (x : sx) : sx :=
+  let H := as_mat (arg 0 x) in
+  let A := as_mat (arg 1 x) in
+  let fsx := as_list (arg 2 x) in
+  let fs := map as_frame fsx in
+  if existsb (fun f => old_has_bad (arg 0 f)) fsx || negb (valid_framesb 0 fs) then L []
+  else L [L (map of_state_lite (run_trace_lite (fresh H A) fs))].
 
 (* entry_models _ : the matrices of the three motion models as regenerated from the source *)
 Definition entry_models (_ : sx) : sx :=
